@@ -19,10 +19,10 @@ pub fn def() -> CheckDef {
         },
         gen,
         run,
-        rule: "(every fifth case runs in 'setter-retry' mode: each setter call first meets one transient failure of the underlying file, is retried, and the value must then survive reopening like any other) seeded histories (<= 30 ops) of structure ops plus all setters with drawn values: CLSIDs (nil, all-ones, random), state words (0, 1, 0x80000000, u32::MAX, random), times before 1601, at 1601 +- 1 tick, before 1970, +-1..99 ns, exactly u64::MAX ticks and beyond; objects in every directory sector; the simulated clock (cfb_verif hook) is set to drawn instants - including before 1601, beyond year 60056 and jumping backwards - before create_storage and touch. Oracle: an independent i128 conversion (truncate toward 1970, clamp to 0..=u64::MAX ticks); entries and listings return exactly that immediately, in the full dump, and after reopen in both modes; streams report nil/zero; a new storage's times equal the sim-clock reading. Non-trivial: >= 1 successful setter or clocked creation; distinct = distinct (seam log, final image) hash.",
+        rule: "(one case in 40 is a crash-reuse case: a small file whose objects all carry state bits / CLSIDs / times, a removal cut short by a crash at up to 64 evenly spread seam calls, each crash image that open accepts reopened and six new objects created into the free slots: every new object reports zero state bits and a nil CLSID, every new stream zero times, immediately and after reopening) (every fifth case runs in 'setter-retry' mode: each setter call first meets one transient failure of the underlying file, is retried, and the value must then survive reopening like any other) seeded histories (<= 30 ops) of structure ops plus all setters with drawn values: CLSIDs (nil, all-ones, random), state words (0, 1, 0x80000000, u32::MAX, random), times before 1601, at 1601 +- 1 tick, before 1970, +-1..99 ns, exactly u64::MAX ticks and beyond; objects in every directory sector; the simulated clock (cfb_verif hook) is set to drawn instants - including before 1601, beyond year 60056 and jumping backwards - before create_storage and touch. Oracle: an independent i128 conversion (truncate toward 1970, clamp to 0..=u64::MAX ticks); entries and listings return exactly that immediately, in the full dump, and after reopen in both modes; streams report nil/zero; a new storage's times equal the sim-clock reading. Non-trivial: >= 1 successful setter or clocked creation; distinct = distinct (seam log, final image) hash.",
         assumptions: &["the sim clock is read through the cfg(cfb_verif) hook in Timestamp::now / CompoundFile::touch; with no override the real clock would be read"],
         cpu_limit_s: 300,
-        fault_kinds: "F-CK clock jumps / skew (set_clock ops); every fifth case: one transient write/seek failure inside each setter call, followed by a retry",
+        fault_kinds: "one case in 40: F-CR inside a removal (crash images reopened, slots reused); F-CK clock jumps / skew (set_clock ops); every fifth case: one transient write/seek failure inside each setter call, followed by a retry",
         count_subruns: false,
         expect_probes: &["dir_sectors>=2"],
     }
@@ -41,8 +41,186 @@ pub fn flags() -> Flags {
     }
 }
 
+/// "Streams always report a nil CLSID and zero timestamps" and "metadata ... returned exactly"
+/// (an object whose metadata was never set reports the blank values) - at any point of a history,
+/// and a history may have ended in a crash: one case = a small file whose objects all carry
+/// state bits, CLSIDs and times, a removal cut short by a crash (F-CR) at up to 64 evenly spread
+/// seam calls, each accepted crash image reopened, and new objects created into the free slots.
+fn gen_crash_reuse(rng: &mut Rng) -> Case {
+    use crate::ops::T;
+    let version = if rng.chance(1, 2) { 3 } else { 4 };
+    let mut c = Case::new("C17", "crash-reuse", version);
+    c.bufsize = *rng.pick(gen::BUFSIZES);
+    let n = rng.range(1, 5);
+    let mut kinds = vec![];
+    for i in 0..n {
+        let stream = rng.chance(1, 2);
+        kinds.push(stream);
+        let p = format!("/o{}", i);
+        if stream {
+            c.ops.push(Op::WriteWhole { path: p.clone(), len: *rng.pick(&[0u64, 40, 5000]), nonce: 40 + i as u32 });
+        } else {
+            c.ops.push(Op::CreateStorage(p.clone()));
+            let mut id = [0u8; 16];
+            for b in id.iter_mut() {
+                *b = 1 + rng.below(255) as u8;
+            }
+            c.ops.push(Op::SetClsid(p.clone(), id));
+            c.ops.push(Op::SetCreated(p.clone(), T { secs: 1_000_000_000 + rng.below(1000) as i64, nanos: 100 }));
+            c.ops.push(Op::SetModified(p.clone(), T { secs: 1_200_000_000 + rng.below(1000) as i64, nanos: 700 }));
+        }
+        c.ops.push(Op::SetStateBits(p, 0x8000_0001 | rng.next_u64() as u32));
+    }
+    c.params.insert("build_len".into(), c.ops.len() as i64);
+    let v = rng.below(n) as usize;
+    c.ops.push(if kinds[v] { Op::RemoveStream(format!("/o{}", v)) } else { Op::RemoveStorage(format!("/o{}", v)) });
+    c
+}
+
+fn run_crash_reuse(case: &Case) -> Outcome {
+    use crate::case::Violation;
+    use crate::disk::{Fault, FaultKind, SimDisk};
+    use crate::driver::Lib;
+    use crate::ops::Res;
+    let mut o = Outcome::default();
+    let build_len = (case.param("build_len", 0) as usize).min(case.ops.len());
+    crate::driver::set_clock(crate::ops::T { secs: 1_600_000_000, nanos: 0 });
+    let base: Vec<u8> = {
+        let disk = SimDisk::new(Vec::new());
+        let mut lib = match Lib::create_cfg(disk.clone(), case.version, case.bufsize) {
+            Ok(l) => l,
+            Err(_) => return o,
+        };
+        for op in case.ops[..build_len].iter() {
+            if matches!(lib.exec(op), Res::Panic(_) | Res::Hang) {
+                o.stats.probe("base_unusable(other property)");
+                return o;
+            }
+        }
+        lib.close();
+        disk.snapshot()
+    };
+    let exec = |crash_at: u64| -> Option<(Vec<u8>, u64)> {
+        let disk = SimDisk::new(base.clone());
+        let mut lib = Lib::open(disk.clone(), false, case.bufsize).ok()?;
+        let k0 = disk.k();
+        if crash_at != 0 {
+            disk.0.borrow_mut().plan = vec![Fault { k: k0 + crash_at, kind: FaultKind::Crash }];
+        }
+        for op in case.ops[build_len..].iter() {
+            if matches!(lib.exec(op), Res::Panic(_) | Res::Hang) {
+                disk.0.borrow_mut().plan = vec![Fault { k: 1, kind: FaultKind::Crash }];
+                disk.0.borrow_mut().crashed = true;
+                lib.close();
+                return None;
+            }
+        }
+        let span = disk.k() - k0;
+        let img = disk.snapshot();
+        disk.0.borrow_mut().plan = vec![Fault { k: 1, kind: FaultKind::Crash }];
+        disk.0.borrow_mut().crashed = true;
+        lib.close();
+        Some((img, span))
+    };
+    let span = match exec(0) {
+        Some((_, s)) => s,
+        None => return o,
+    };
+    let only = case.param("only_k", -1);
+    let stride = (span / 64).max(1);
+    let mut hashes: BTreeSet<u64> = BTreeSet::new();
+    let blank = |e: &crate::ops::EntryInfo| -> Option<String> {
+        let m = &e.meta;
+        if m.state_bits != 0 {
+            return Some(format!("state bits {:#x}", m.state_bits));
+        }
+        if m.clsid != [0u8; 16] {
+            return Some(format!("CLSID {:02x?}", m.clsid));
+        }
+        if e.is_stream && (m.created != 0 || m.modified != 0) {
+            return Some(format!("times {} / {}", m.created, m.modified));
+        }
+        None
+    };
+    'all: for k in 1..=span {
+        if only >= 0 && only as u64 != k {
+            continue;
+        }
+        if only < 0 && (k - 1) % stride != 0 {
+            continue;
+        }
+        let img = match exec(k) {
+            Some((img, _)) => img,
+            None => continue,
+        };
+        o.stats.sub_runs += 1;
+        *o.stats.faults_fired.entry("F-CR".into()).or_insert(0) += 1;
+        hashes.insert(crate::prng::fnv(&img));
+        let mut lib = match Lib::open(SimDisk::new(img), false, case.bufsize) {
+            Ok(l) => l,
+            Err(_) => {
+                o.stats.probe("crash_image_rejected_by_open");
+                continue;
+            }
+        };
+        o.stats.probe("crash_image_accepted");
+        // enough new objects to take every free slot of the directory sector
+        let mut made: Vec<String> = vec![];
+        for i in 0..6 {
+            let p = format!("/fresh{}", i);
+            let op = if i % 2 == 0 { Op::CreateStream(p.clone()) } else { Op::CreateStorage(p.clone()) };
+            match lib.exec(&op) {
+                Res::Panic(_) | Res::Hang => {
+                    // a crash image is a damaged file: C11's business
+                    lib.crash();
+                    continue 'all;
+                }
+                r if r.is_err() => continue,
+                _ => made.push(p),
+            }
+        }
+        for pass in 0..2 {
+            if pass == 1 {
+                let snap = lib.disk.snapshot();
+                lib.close();
+                lib = match Lib::open(SimDisk::new(snap), false, case.bufsize) {
+                    Ok(l) => l,
+                    Err(_) => continue 'all,
+                };
+            }
+            for p in &made {
+                if let Res::Entry(e) = lib.exec(&Op::Entry(p.clone())) {
+                    o.stats.boundary_checks += 1;
+                    o.stats.ok_mutations += 1;
+                    if let Some(what) = blank(&e) {
+                        let mut rc = case.clone();
+                        rc.params.insert("only_k".into(), k as i64);
+                        o.replay_case = Some(rc);
+                        o.violations.push(Violation {
+                            property: "C17".into(),
+                            rule: "fresh-object-not-blank".into(),
+                            site: "crash-reuse".into(),
+                            msg: format!("crash at seam call {} of {}, bytes reopened, {:?} created: its entry reports {} although nothing was ever set on it ({})", k, case.ops.last().map(|x| x.to_json().to_string()).unwrap_or_default(), p, what, if pass == 0 { "same session" } else { "after reopening" }),
+                            step: 0,
+                        });
+                        break 'all;
+                    }
+                }
+            }
+        }
+        lib.close();
+    }
+    o.stats.state_hashes = hashes.iter().copied().collect();
+    o.stats.trace_hash = hashes.iter().fold(5, |a, b| a ^ crate::prng::mix(*b));
+    o.stats.nontrivial = o.stats.ok_mutations > 0;
+    o
+}
+
 pub fn gen(seed: u64, idx: u64, _tier: Tier) -> Case {
     let mut rng = Rng::for_case(seed, "C17", idx);
+    if idx % 40 == 17 {
+        return gen_crash_reuse(&mut rng);
+    }
     let k = Knobs { max_ops: 30, near_miss: &[0, 10, 25], ..DEFAULT_KNOBS };
     let mut w = common::join_weights(
         vec![("create_storage", 10), ("create_storage_all", 3), ("write_whole", 6), ("remove_storage", 2), ("remove_stream", 2), ("entry", 6), ("read_storage", 3), ("walk", 2), ("root_entry", 2), ("reopen", 3)],
@@ -119,6 +297,9 @@ fn run_setter_retry(case: &Case, known: &BTreeSet<String>) -> Outcome {
 }
 
 pub fn run(case: &Case, known: &BTreeSet<String>) -> Outcome {
+    if case.mode == "crash-reuse" {
+        return run_crash_reuse(case);
+    }
     let mut o = if case.mode == "setter-retry" { run_setter_retry(case, known) } else { runner::run_history(case, &flags(), known) };
     let mut span: (u64, u64) = (u64::MAX, 0);
     for op in &case.ops {
